@@ -204,6 +204,15 @@ func LetterTemplate(letter byte) corev1.PodTemplateSpec {
 		}}}}
 	case 'F':
 		tpl.Spec.Tolerations = []corev1.Toleration{{Key: "dedicated", Operator: corev1.TolerationOpExists}}
+	case 'I', 'J':
+		// two templates that differ only in the ORDER of a keyed list (env): order matters to the pods
+		// ($(HOST_IP) only expands against variables declared earlier), so they are different templates
+		env := []corev1.EnvVar{{Name: "HOST_IP", Value: "10.0.0.1"}, {Name: "AGENT_URL", Value: "http://$(HOST_IP):8126"}}
+		if letter == 'J' {
+			env[0], env[1] = env[1], env[0]
+		}
+		tpl.Spec.Containers[0].Image = "img:I"
+		tpl.Spec.Containers[0].Env = env
 	case 'H':
 		// the template itself carries a matchFields requirement on the node name (an exclusion): pods bound by
 		// spec.nodeName keep it, pods pinned by affinity get it replaced by the controller
